@@ -255,3 +255,63 @@ Theorem C08_notified_below_members : forall B fuel s n e,
 Proof. exact P9V.Refs.NotifiedDeep.in_below. Qed.
 Print Assumptions C08_notified_below_members.
 (* --- end pathB --- *)
+
+(* --- round 5: the atomicity of binding requests with respect to renames --- *)
+From P9V Require Refs.BindSplit.
+(** Every history theorem above is about the SEQUENTIAL model: a request that binds a new File (clone, walk,
+    Tlcreate) runs atomically.  In the code this is Server.renameMu: the backend call that makes the File and
+    the registration of the new fidRef sit in one safelyRead / safelyWrite, a rename takes renameMu for
+    writing.  It is an ASSUMPTION of this file (tested on every run by the gated scenario vhgRenameVsBind:
+    a rename issued while the binding request is parked inside its backend call), made expressible here:
+    [BindSplit.clone_begin] = LookupFID, guards, walkOne(nil); [BindSplit.clone_finish] = the rest, reading
+    the origin's parent and name at that moment.
+    C08_clone_split: run back to back, the two segments ARE the model's zero-name Twalk / Twalkgetattr, for
+    every backend and every state (the split adds no behaviour). *)
+Theorem C08_clone_split : forall B bstep c fid newfid g s,
+  P9V.Refs.BindSplit.clone_seq B bstep c fid newfid g s = step B bstep (OWalk c fid newfid [] g) s.
+Proof. exact P9V.Refs.BindSplit.clone_split_seq. Qed.
+Print Assumptions C08_clone_split.
+
+(** C08_clone_overtaken_refuted: without that atomicity C08_coherent is false.  PathFS, fid 1 on /n1 (inode 2),
+    clone of fid 1 onto fid 2, Trenameat /n1 -> /n3 on a second connection.  Either sequential order: GetAttr
+    through fid 2 answers inode 2.  Rename between the segments: GetAttr through fid 2 answers ENOENT (the object
+    is alive at /n3) and the only File told about the rename is the origin's. *)
+Theorem C08_clone_overtaken_refuted : forall wga g,
+  P9V.Refs.BindSplit.bs_order wga g true = (0, 2) /\ P9V.Refs.BindSplit.bs_order wga g false = (0, 2) /\
+  P9V.Refs.BindSplit.bs_overtaken wga g = ((ENOENT, 0), [BRenamed 1 2 3]).
+Proof. exact P9V.Refs.BindSplit.clone_overtaken_refuted. Qed.
+Print Assumptions C08_clone_overtaken_refuted.
+
+(* --- round 5: static tie of the notification / clone code to the model --- *)
+From Coq Require Import String.
+From P9V Require gen.RefsGen Refs.GenTie.
+Local Open Scope string_scope.
+(** C08_code_skeleton: see C05_code_skeleton (Properties/C05.v) - the generated event skeletons of
+    notifyNameChange, renameChildTo, markChildDeleted, notifyDelete, doWalk, DecRef, stop = the reviewed table. *)
+Theorem C08_code_skeleton : P9V.gen.RefsGen.refs_skeleton = P9V.Refs.GenTie.expected_skeleton.
+Proof. exact P9V.Refs.GenTie.refs_skeleton_reviewed. Qed.
+Print Assumptions C08_code_skeleton.
+
+(** Read off the GENERATED table: notifyNameChange tells the fidRefs registered in a node (Renamed(parent File,
+    registered name), only after a successful TryIncRef) BEFORE it recurses into the child nodes - the code-side
+    counterpart of C08_notified_parents_first (model: fold over pn_refs, then over pn_nodes). *)
+Theorem C08_notify_parents_first_code :
+  let l := P9V.Refs.GenTie.events_of "notifyNameChange" P9V.gen.RefsGen.refs_skeleton in
+  map (fun e => (P9V.Refs.GenTie.ev_name e, P9V.Refs.GenTie.ev_recv e, P9V.Refs.GenTie.ev_args e, P9V.Refs.GenTie.ev_cond e)) l =
+  [("forEachChildRef", "$p0", ["<fn>"], []); ("TryIncRef", "$0.0", [], []);
+   ("Renamed", "$0.0.file", ["$0.0.parent.file"; "$0.1"], ["#1"]);
+   ("forEachChildNode", "$p0", ["<fn>"], []); ("notifyNameChange", "", ["$3.0"; "$p1"], [])]%string.
+Proof. exact P9V.Refs.GenTie.notify_parents_first. Qed.
+Print Assumptions C08_notify_parents_first_code.
+
+(** Read off the generated table: in doWalk's clone the backend copy (walkOne, nil names), the new fidRef built
+    from the origin's parent, nameFor / addChild and the IncRefs are all inside the closure of ONE safelyRead
+    of the origin (renameMu.R + the node's opMu.R) - the atomicity C08_clone_split assumes and
+    C08_clone_overtaken_refuted shows necessary. *)
+Theorem C08_clone_is_one_critical_section :
+  let l := P9V.Refs.GenTie.events_of "doWalk" P9V.gen.RefsGen.refs_skeleton in
+  map (fun e => (P9V.Refs.GenTie.ev_name e, P9V.Refs.GenTie.ev_recv e)) (firstn 2 (skipn 1 l)) = [("safelyRead", "$p1"); ("walkOne", "")]%string /\
+  forallb (fun e => P9V.Refs.GenTie.strs_eqb (P9V.Refs.GenTie.ev_ctx e) ["fn#1:safelyRead"%string]) (firstn 8 (skipn 2 l)) = true /\
+  map P9V.Refs.GenTie.ev_name (firstn 8 (skipn 2 l)) = ["walkOne"; "new fidRef"; "hasParent"; "isDeleted"; "nameFor"; "addChild"; "IncRef"; "IncRef"]%string.
+Proof. exact P9V.Refs.GenTie.clone_is_one_critical_section. Qed.
+Print Assumptions C08_clone_is_one_critical_section.
